@@ -156,6 +156,17 @@ pub fn variants(base: &Cfg) -> Vec<Cfg> {
             out.push(c);
         }
     }
+    // status recorded only in FAT entry 1 (FAT16/FAT32), boot-sector byte clean
+    if g.width != 12 {
+        for (n, dirty, io) in [("fat1-dirty", true, false), ("fat1-ioerr", false, true)] {
+            let mut img = img0.clone();
+            vol::set_fat1_flags(&mut img, dirty, io);
+            let mut c = base.clone();
+            c.base = Arc::new(Base::Bytes(img));
+            c.name = format!("{}-st0-{n}", base.name);
+            out.push(c);
+        }
+    }
     out
 }
 
